@@ -120,14 +120,29 @@ Definition new_ports (ds : list name) : list name :=
   flat_map (fun d => [name_for d s_clk; name_for d s_rst]) ds.
 
 (* ------------------------------------------------------------------ (2) name assignment *)
+(* AssertErr: _add_name ran out of fuel (unreachable, ReproP.port_names_go_total) *)
 Inductive res (A : Type) := Ok (a : A) | AssertErr | TypeErr.
 Arguments Ok {A} a. Arguments AssertErr {A}. Arguments TypeErr {A}.
 
-(* _add_name(assigned_names, name) -> (name', assigned_names'); None = the `assert` fails *)
+(* _add_name(assigned_names, name) since fix cb9d97a (S3):
+       if name in assigned_names:
+           index = len(assigned_names)
+           while f"{name}${index}" in assigned_names: index += 1
+           name = f"{name}${index}"
+       assigned_names.add(name); return name
+   The `while` loop runs on fuel |assigned_names| + 1 (proved never exhausted: ReproP.add_name_total);
+   None = out of fuel. *)
+Fixpoint find_index (fuel : nat) (assigned : list name) (n : name) (i : Z) : option Z :=
+  match fuel with
+  | O => None
+  | S f => if mem (n ++ [dollar] ++ dec i) assigned then find_index f assigned n (i + 1) else Some i
+  end.
 Definition add_name (assigned : list name) (n : name) : option (name * list name) :=
   if mem n assigned then
-    let n' := n ++ [dollar] ++ dec (zlen assigned) in
-    if mem n' assigned then None else Some (n', set_add n' assigned)
+    match find_index (S (length assigned)) assigned n (zlen assigned) with
+    | Some i => let n' := n ++ [dollar] ++ dec i in Some (n', set_add n' assigned)
+    | None => None
+    end
   else Some (n, set_add n assigned).
 
 (* a sequence of _add_name calls on one set *)
@@ -228,15 +243,6 @@ Definition assign_names (tports : list tport) (sigs ios : list (Z * name)) (subs
       end
     end
   end.
-
-(* a requested name that LOOKS like a generated one, `s$<k>`, with k beyond the size the set has when
-   the request is made, is what can make the `assert` in _add_name fail (S3).  `suffix_ok b n`:
-   every decomposition n = s ++ "$" ++ str(k) has k <= b. *)
-Definition suffix_ok (b : Z) (n : name) : Prop :=
-  forall s k, 0 <= k -> n = s ++ [dollar] ++ dec k -> k <= b.
-(* requests made one after the other on a set of size b: the j-th is checked against b + j *)
-Fixpoint suffixes_ok (b : Z) (ns : list name) : Prop :=
-  match ns with [] => True | n :: r => suffix_ok b n /\ suffixes_ok (b + 1) r end.
 
 (* ------------------------------------------------------------------ (3) build plans *)
 Inductive content := CStr (s : name) | CBytes (b : list Z).
